@@ -34,11 +34,13 @@ def rq : Request := { kind := .eval, fn := "f0" }
 def U : Universe where
   fns f := f = root ∨ f = leafA ∨ f = leafB
   vals v := v = .int 1
+  avals v := v = .int 1
   faithful := by
     intro f g hf hg h
     rcases hf with rfl | rfl | rfl <;> rcases hg with rfl | rfl | rfl <;>
       first | rfl | (exact absurd h (by decide))
   varsInj := by intro v w hv hw _; rw [hv, hw]
+  argsInj := by intro v w hv hw _; rw [hv, hw]
   varsIn := by
     intro f hf nv h
     rcases hf with rfl | rfl | rfl <;> simp [root, leafA, leafB] at h
